@@ -175,6 +175,8 @@ static int t_asn1(const uint8_t *in, size_t n)
 #define FRESH (p = in, l = n)
 	{ size_t len = 0; FRESH; C(asn1_length_from_der(&len, &p, &l)); }
 	{ size_t len = 0; FRESH; if (C(asn1_tag_from_der(&tag, &p, &l)) == 1) C(asn1_length_from_der(&len, &p, &l)); FRESH; C(asn1_tag_from_der_readonly(&tag, &p, &l)); }
+	// the name of whatever tag octet the input starts with (and of its class variants): printing paths name tags taken from the input
+	if (n) { for (int k = 0; k < 4; k++) { const char *nm = asn1_tag_name((in[0] & 0x3f) | (k << 6)); if (nm) { volatile char ch = nm[0]; (void)ch; } } }
 	FRESH; C(asn1_boolean_from_der(&v, &p, &l));
 	FRESH; C(asn1_integer_from_der(&d, &dl, &p, &l));
 	FRESH; C(asn1_int_from_der(&v, &p, &l));
